@@ -958,7 +958,7 @@ def run(ctx):
         for i, c in enumerate(diff.load_corpus("C27")):
             c = dict(c, id="k%d" % i)
             cases.append(rebuild(c))
-        nsys, nbig, ngr, ndom = (170, 60, 300, 80) if tier == "quick" else (3000, 1000, 8000, 1600)
+        nsys, nbig, ngr, ndom = (170, 60, 300, 80) if tier == "quick" else (2200, 800, 6000, 1200)
         k = 0
         for big, cnt in ((False, nsys), (True, nbig)):
             # candidates are first solved by the reference; systems with at least one solution and
